@@ -1426,7 +1426,7 @@ func TestVerifStorage(t *testing.T) {
 			runOne(cs, "corpus")
 		}
 		r := vNewRand(vSeed()*1000003 + uint64(len(prop))*7 + uint64(prop[2]))
-		n := vN(220, 1200)
+		n := vN(220, 3000)
 		maxActs := 34
 		if vTier() == "thorough" {
 			maxActs = 60
